@@ -112,3 +112,6 @@ Definition arecover (shs : list ashare) : outcome commune :=
         if verify c (aJ s) then Ok c else Err
   end.
 End WithF.
+
+
+Strategy 100 [sharing_of transcript_of polys_from shares_at arecover verify].
